@@ -111,7 +111,8 @@ def run_cases(
     ensure_deps()
     q: "queue.Queue[Optional[dict]]" = queue.Queue()
     n = 0
-    for c in cases:
+    ordered = sorted(cases, key=lambda c: int(c.get("hashseed", default_hashseed)))  # stable: keeps generator order per seed
+    for c in ordered:
         q.put(c)
         n += 1
     lock = threading.Lock()
@@ -120,7 +121,7 @@ def run_cases(
     stop = threading.Event()
 
     def loop() -> None:
-        workers: dict[int, Worker] = {}
+        worker: Optional[Worker] = None
         try:
             while not stop.is_set():
                 try:
@@ -132,25 +133,24 @@ def run_cases(
                 if budget_s is not None and time.time() - t0 > budget_s:
                     return
                 hs = int(case.get("hashseed", default_hashseed))
-                if case.get("fresh_worker") and hs in workers:
-                    workers[hs].kill()
-                    del workers[hs]
-                w = workers.get(hs)
-                if w is None:
-                    w = workers[hs] = Worker(hs)
-                res = w.request(case, float(case.get("timeout", timeout)))
+                if worker is not None and (case.get("fresh_worker") or worker.hashseed != hs):
+                    worker.kill()
+                    worker = None
+                if worker is None:
+                    worker = Worker(hs)
+                res = worker.request(case, float(case.get("timeout", timeout)))
                 with lock:
                     done[0] += 1
                     if on_result:
                         on_result(case, res)
         finally:
-            for w in workers.values():
+            if worker is not None:
                 try:
-                    if w.proc and w.proc.stdin:
-                        w.proc.stdin.close()
+                    if worker.proc and worker.proc.stdin:
+                        worker.proc.stdin.close()
                 except Exception:  # pylint: disable=broad-exception-caught
                     pass
-                w.kill()
+                worker.kill()
 
     threads = [threading.Thread(target=loop, daemon=True) for _ in range(max(1, min(jobs, n)))]
     for t in threads:
